@@ -67,15 +67,39 @@ def _fft_ns():
 
 
 class _FFTW:
-    """pyfftw.FFTW plan: calling it transforms the given array along `axes` (BACKWARD is normalised by default)"""
+    """pyfftw.FFTW plan (external contract, from pyfftw's documentation of FFTW.__call__ / update_arrays):
+       * calling the plan with an input array of the plan's shape and dtype that is suitably laid out makes THAT array the plan's
+         new input array (no copy) -- whether a given array qualifies depends on its alignment, so both outcomes are explored;
+         otherwise the data are copied into the plan's CURRENT input array;
+       * with FFTW_DESTROY_INPUT the contents of the input array are unspecified after the transform;
+       * the result is written to the plan's output array, which is returned (the same array object on every call);
+       * BACKWARD transforms are normalised by default."""
+    count = [0]
 
     def __init__(self, fft_in, fft_out, axes=(0,), flags=(), direction="FFTW_FORWARD"):
         assert direction in ("FFTW_FORWARD", "FFTW_BACKWARD")
         self.axes, self.inverse, self.shape = tuple(axes), direction == "FFTW_BACKWARD", fft_in.shape
+        self.input_array, self.output_array = fft_in, fft_out
+        self.destroy = "FFTW_DESTROY_INPUT" in flags
 
-    def __call__(self, inp):
-        assert tuple(inp.shape) == tuple(self.shape), "pyfftw: input shape differs from the plan's"
-        return dft(inp, self.axes, self.inverse)
+    def __call__(self, inp=None):
+        if inp is not None:
+            assert tuple(inp.shape) == tuple(self.shape), "pyfftw: input shape differs from the plan's"
+            adopt = isinstance(inp, rnp.ndarray) and inp.flags["C_CONTIGUOUS"] and ADOPT[0] and bool(ctx().choose(2, "pyfftw adopts the caller's array as its input array"))
+            if adopt:
+                self.input_array = inp
+            else:
+                self.input_array[...] = inp
+        out = dft(self.input_array, self.axes, self.inverse)
+        if self.destroy:
+            _FFTW.count[0] += 1
+            for idx in rnp.ndindex(*self.input_array.shape):
+                self.input_array[idx] = SCplx(sreal("fftw_scratch_%d_%s.re" % (_FFTW.count[0], "_".join(map(str, idx)))), sreal("fftw_scratch_%d_%s.im" % (_FFTW.count[0], "_".join(map(str, idx)))))
+        self.output_array[...] = out
+        return self.output_array
+
+
+ADOPT = [False]          # the aliasing behaviour is explored only by the unit that is about it (keeps the other units single-path)
 
 
 def _pyfftw():
@@ -118,9 +142,11 @@ def build(U, with_dataK=False):
     g2 = dict(g)
     g2["FFT_R_to_k"] = FFT
     g2["clear_cached"] = U.fn(F_UT, "clear_cached", globs=dict(np=NP), model=False, rewrite_comps=False)
-    RV = U.klass(F_RV, "Rvectors", globs=g2, rewrite_comps=False,
-                 only=("__init__", "set_fft_R_to_k", "apply_expdK", "derivative", "R_to_k", "cRvec", "cRvec_shifted", "shifts_diff_cart",
-                       "shifts_left_cart", "shifts_right_cart", "nRvec", "nshifts_left", "nshifts_right", "copy", "clear_cached"))
+    # the whole class is assembled (a helper added to Rvectors later is then simply there)
+    for nm in ("iterate_nd", "iterate3dpm"):
+        g2[nm] = None
+    g2["execute_fft"] = g["execute_fft"]
+    RV = U.klass(F_RV, "Rvectors", globs=g2, rewrite_comps=False, skip=("__len__",))
     return NP, FFT, RV, g2
 
 
@@ -283,6 +309,81 @@ def _herm_unit(NKFFT, lib, der):
         _externals(U)
     return Unit("C02", name, prove=prove, replay=_replay_chain, replay_once=True,
                 scope="shape:NKFFT=%s, 7 R-vectors (+-closed), %d bands, derivative order %d" % (NKFFT, NW, der), expect_min=1)
+
+
+def _frame_unit(lib):
+    name = "a result of R_to_k is not disturbed by later transforms on the same object: lib=%s" % lib
+
+    def prove(U):
+        NP, FFT, RV, g = build(U)
+        Rs = R_SETS["A"]
+
+        def body():
+            ADOPT[0] = True
+            try:
+                rv = RV(lattice=LATT, shifts_left_red=None, iRvec=Rs)
+                dK = rnp.array([sreal("dK0"), sreal("dK1"), sreal("dK2")], dtype=object)
+                rv.set_fft_R_to_k(NK=(2, 1, 1), num_wann=NW, fftlib=lib, dK=dK)
+                X = sym_cplx_array("X", (len(Rs), NW, NW))
+                Y = sym_cplx_array("Y", (len(Rs), NW, NW))
+                first = rv.R_to_k(rv.apply_expdK(X.copy()), der=0, hermitian=False)
+                kept = first.copy()
+                second = rv.R_to_k(rv.apply_expdK(Y.copy()), der=0, hermitian=False)          # same shape, other data
+                kept2 = second.copy()
+                rv.R_to_k(rv.apply_expdK(X.copy()), der=1, hermitian=False)
+                rv.R_to_k(rv.apply_expdK(X.copy()), der=0, hermitian=False)
+                U.ensure("the arrays returned by the first two calls still hold their results after a same-shape call, a der=1 call and another der=0 call (for every admissible behaviour of the FFT library)",
+                         land(*([phsum_eq(first[idx], kept[idx]) for idx in rnp.ndindex(*first.shape)] + [phsum_eq(second[idx], kept2[idx]) for idx in rnp.ndindex(*second.shape)])))
+            finally:
+                ADOPT[0] = False
+        U.run(body, check_feasible=False)
+        _externals(U)
+        U.external("pyfftw.FFTW.__call__: may adopt a suitably laid out input array as the plan's input array, copies otherwise; FFTW_DESTROY_INPUT leaves the input array unspecified")
+    return Unit("C02", name, prove=prove, replay=_replay_alias, replay_once=True, scope="shape:NKFFT=(2,1,1), 6 R-vectors, 2 bands; calls der 0, 0, 1, 0", expect_min=1)
+
+
+def _reconf_unit(lib):
+    name = "set_fft_R_to_k called again with another K-point shift: the transform uses the NEW shift: lib=%s" % lib
+
+    def prove(U):
+        NP, FFT, RV, g = build(U)
+        Rs = R_SETS["A"]
+
+        def body():
+            rv = RV(lattice=LATT, shifts_left_red=None, iRvec=Rs)
+            X = sym_cplx_array("X", (len(Rs), NW, NW))
+            dK1 = rnp.array([sreal("dK0"), sreal("dK1"), sreal("dK2")], dtype=object)
+            dK2 = rnp.array([sreal("e0"), sreal("e1"), sreal("e2")], dtype=object)
+            rv.set_fft_R_to_k(NK=(2, 1, 1), num_wann=NW, fftlib=lib, dK=dK1)
+            rv.R_to_k(rv.apply_expdK(X.copy()), der=0, hermitian=False)
+            rv.set_fft_R_to_k(NK=(1, 2, 1), num_wann=NW, fftlib=lib, dK=dK2)
+            out = rv.R_to_k(rv.apply_expdK(X.copy()), der=0, hermitian=False)
+            kforms = [[{("e%d" % j): Fraction(1), 1: Fraction(n[j], (1, 2, 1)[j])} for j in range(3)] for n in itertools.product(range(1), range(2), range(1))]
+            _check_out(U, name, out, _spec_der(X, Rs, None, 0), Rs, kforms, 0, False)
+        U.run(body, check_feasible=False)
+        _externals(U)
+    return Unit("C02", name, prove=prove, replay=_replay_chain, replay_once=True, scope="shape:NKFFT (2,1,1) then (1,2,1), 6 R-vectors, 2 bands", expect_min=2)
+
+
+def _replay_alias(mv, ob):
+    """installed code: the first result must survive later calls, for every library"""
+    from wannierberri.fourier.rvectors import Rvectors
+    rs = rnp.random.RandomState(0)
+    Rs = rnp.array([[0, 0, 0], [1, 0, 0], [-1, 0, 0], [0, 1, 0], [0, -1, 0]])
+    X = rs.randn(len(Rs), 2, 2) + 1j * rs.randn(len(Rs), 2, 2)
+    bad = []
+    for lib in ("fftw", "numpy", "slow"):
+        rv = Rvectors(lattice=rnp.eye(3), shifts_left_red=rs.rand(2, 3), iRvec=Rs)
+        rv.set_fft_R_to_k(NK=(3, 2, 1), num_wann=2, fftlib=lib, dK=(0.1, 0.2, 0.0))
+        a = rv.R_to_k(rv.apply_expdK(X.copy()), der=0, hermitian=False)
+        keep = a.copy()
+        rv.R_to_k(rv.apply_expdK(2 * X + 1), der=0, hermitian=False)
+        if abs(a - keep).max() > 1e-12:
+            bad.append(dict(lib=lib, clause="der=0 result overwritten by a later same-shape call on the same Rvectors object", change=float(abs(a - keep).max())))
+        rv.R_to_k(rv.apply_expdK(X.copy()), der=1, hermitian=False)
+        if abs(a - keep).max() > 1e-12:
+            bad.append(dict(lib=lib, clause="der=0 result overwritten by a later der=1 call on the same Rvectors object", change=float(abs(a - keep).max())))
+    return dict(reproduced=bool(bad), input="Rvectors.R_to_k(der=0, hermitian=False) then R_to_k(der=1) on one object, NK=(3,2,1), 5 R-vectors, 2 bands", failed=bad)
 
 
 # ------------------------------------------------------------------------------------------------------- Data_K_R
@@ -533,6 +634,10 @@ def _register():
     _grid_unit((2, 1, 1), "A", "fftw", 1, True, True)
     _grid_unit((1, 2, 1), "B", "fftw", 2, False, True)
     _grid_unit((2, 1, 1), "B", "slow", 1, False, True)
+    for lib_ in ("fftw", "numpy", "slow"):
+        _frame_unit(lib_)
+    _reconf_unit("numpy")
+    _reconf_unit("fftw")
     _klist_unit("A", 0, True, False)
     _klist_unit("B", 1, False, True)
     _klist_unit("A", 2, True, True, nk=1)
